@@ -1,0 +1,83 @@
+//! Verification hooks (cargo feature `verif-hooks`): read-only observation points used by the
+//! model-based verification harness.  Nothing in the library reads these values.
+
+use core::cell::RefCell;
+
+use alloc::string::String;
+use alloc::vec::Vec;
+
+/// A decoded training feature.
+#[derive(Clone, Debug, PartialEq)]
+pub enum FeatureDesc {
+    /// Character n-gram at a relative position.
+    Char {
+        /// n-gram
+        ngram: String,
+        /// relative position of the first character to the boundary / of the end to the token end
+        rel: isize,
+    },
+    /// Character-type n-gram at a relative position.
+    Type {
+        /// n-gram of type codes
+        ngram: Vec<u8>,
+        /// relative position
+        rel: isize,
+    },
+    /// Dictionary-word feature: length bucket and side (0 = left, 1 = inside, 2 = right).
+    Dict {
+        /// length bucket
+        length: usize,
+        /// side
+        side: u8,
+    },
+}
+
+/// What the boundary learner produced, after quantisation.
+#[derive(Clone, Debug, Default)]
+pub struct BoundaryLog {
+    /// quantised bias
+    pub bias: i32,
+    /// (feature, quantised weight) for every feature
+    pub weights: Vec<(FeatureDesc, i32)>,
+}
+
+/// One quantised value of a tag classifier.
+#[derive(Clone, Debug)]
+pub struct TagLogEntry {
+    /// token
+    pub token: String,
+    /// tag category index
+    pub category: usize,
+    /// class index inside the category (position in the candidate list)
+    pub class: usize,
+    /// `None` for the bias, otherwise the feature
+    pub feature: Option<FeatureDesc>,
+    /// quantised value
+    pub value: i32,
+}
+
+/// Everything recorded during one `Trainer::train` call.
+#[derive(Clone, Debug, Default)]
+pub struct TrainLog {
+    /// boundary classifier
+    pub boundary: Option<BoundaryLog>,
+    /// tag classifiers
+    pub tags: Vec<TagLogEntry>,
+}
+
+std::thread_local! {
+    static LOG: RefCell<TrainLog> = RefCell::new(TrainLog::default());
+}
+
+/// Returns and clears the log of the current thread.
+pub fn take_train_log() -> TrainLog {
+    LOG.with(|l| core::mem::take(&mut *l.borrow_mut()))
+}
+
+pub(crate) fn record_boundary(log: BoundaryLog) {
+    LOG.with(|l| l.borrow_mut().boundary = Some(log));
+}
+
+pub(crate) fn record_tag(entry: TagLogEntry) {
+    LOG.with(|l| l.borrow_mut().tags.push(entry));
+}
